@@ -46,6 +46,7 @@ var c26Assumptions = []string{
 	"a secondary index the memory engine fails to build is dropped from dolt as well (counted as excluded_known, class reference_rejected_index)",
 	"a query on which the reference engine's connection dies (the memory engine panicked) is skipped and counted as excluded_known (class reference_engine_crashed)",
 	"while finding " + c26FindPrefixOverlap + " is listed open, a disagreement (no LIMIT) where dolt returns exactly the reference rows but some of them several times, for a query over a table with a prefix index and an index scan in dolt's plan, is attributed to it (counted as excluded_known); the pinned sub-test reports it",
+	"while finding " + c26FindLeftMerge + " is listed open, a disagreement whose dolt plan contains a LeftOuterMergeJoin and where dolt returns no more rows than the reference is attributed to it (counted as excluded_known); the pinned sub-test reports it",
 	"while finding " + c26FindKeylessCount + " is listed open, `SELECT COUNT(col) FROM <keyless table>` is not generated (counted as excluded_known); the pinned sub-test reports it",
 }
 
@@ -488,6 +489,31 @@ func c26PinnedPrefixOverlap(t *testing.T, srv *vsql.Server, admin *vsql.Session)
 	return ""
 }
 
+// c26FindLeftMerge: the kv merge join re-runs its right-side lookahead when a left row that
+// compares equal to the current right key produced no row (NULL keys, or a failing extra ON
+// condition) and the next left row has the same key: the stashed next right row is dropped and
+// the following key group loses its first inner row.
+const c26FindLeftMerge = "C26-left-mergejoin-first-inner-row"
+
+func c26PinnedLeftMerge(t *testing.T, srv *vsql.Server, admin *vsql.Session) string {
+	db := srv.NewDBName()
+	admin.MustExec(t, "CREATE DATABASE "+db)
+	defer admin.Exec("DROP DATABASE " + db)
+	s := srv.Session(t, "pinned", db)
+	defer s.Close()
+	s.MustExec(t, "CREATE TABLE a (k INT PRIMARY KEY, c INT, KEY i (c))")
+	s.MustExec(t, "CREATE TABLE b (k INT PRIMARY KEY, c INT, KEY i (c))")
+	s.MustExec(t, "INSERT INTO a VALUES (1,NULL),(2,NULL),(3,7)")
+	s.MustExec(t, "INSERT INTO b VALUES (10,NULL),(11,7)")
+	q := "SELECT /*+ MERGE_JOIN(x,y) */ x.k, y.k FROM a x LEFT JOIN b y ON x.c = y.c"
+	r := s.MustQuery(t, q)
+	if got := vsql.Show(r.Sorted()); got != "(1,NULL) (2,NULL) (3,11)" {
+		p := s.MustQuery(t, "EXPLAIN PLAN "+q)
+		return "a(k PK, c indexed) = {(1,NULL),(2,NULL),(3,7)}, b(k PK, c indexed) = {(10,NULL),(11,7)}: " + q + " returned " + got + " want (1,NULL) (2,NULL) (3,11); plan " + strings.Join(p.Ordered()[:3], " / ")
+	}
+	return ""
+}
+
 // c26FindKeylessCount: on a keyless table `SELECT COUNT(col) FROM t` (count fast path of
 // kvexec/count_agg.go) tests the NULL-ness of the value field one position to the left of col
 // (keyless value tuples start with the cardinality field).
@@ -616,6 +642,15 @@ func (c *qCase) runQuery(q qQuery) {
 		if strings.Contains(strings.Join(dp, "\n"), "IndexedTableAccess") && qOnly(mr, dr) == "" && qSameSet(dr, mr) {
 			c.rec.Excluded(1)
 			c.rec.Class("known:"+c26FindPrefixOverlap, 1)
+			return
+		}
+	}
+	if mismatch && vh.OpenFinding("C26", c26FindLeftMerge) {
+		dp, _ := plan()
+		// dolt loses inner rows: every dolt row that is not a reference row is NULL-extended
+		if strings.Contains(strings.Join(dp, "\n"), "LeftOuterMergeJoin") && len(dr.Data) <= len(mr.Data) {
+			c.rec.Excluded(1)
+			c.rec.Class("known:"+c26FindLeftMerge, 1)
 			return
 		}
 	}
@@ -845,6 +880,16 @@ func TestVerif_C26(t *testing.T) {
 				return
 			}
 			vh.NoteViolation(t.Name(), "", `{"sql":["CREATE TABLE t (k INT PRIMARY KEY, c VARCHAR(16), KEY i (c(1), k))","INSERT INTO t VALUES (1,'a'),(2,'a'),(3,'ab'),(7,'abc'),(8,'b')","SELECT k, c FROM t WHERE c NOT IN ('ab','abc') OR k >= 5"],"observed":"`+strings.ReplaceAll(msg, `"`, `'`)+`"}`)
+			t.Errorf("%s", msg)
+		}
+	})
+	t.Run("pinned_left_mergejoin_first_inner_row", func(t *testing.T) {
+		if msg := c26PinnedLeftMerge(t, srv, admin); msg != "" {
+			if vh.OpenFinding("C26", c26FindLeftMerge) {
+				vh.ReportKnown("C26", c26FindLeftMerge, msg)
+				return
+			}
+			vh.NoteViolation(t.Name(), "", `{"sql":["CREATE TABLE a (k INT PRIMARY KEY, c INT, KEY i (c))","CREATE TABLE b (k INT PRIMARY KEY, c INT, KEY i (c))","INSERT INTO a VALUES (1,NULL),(2,NULL),(3,7)","INSERT INTO b VALUES (10,NULL),(11,7)","SELECT /*+ MERGE_JOIN(x,y) */ x.k, y.k FROM a x LEFT JOIN b y ON x.c = y.c"],"observed":"`+strings.ReplaceAll(msg, `"`, `'`)+`"}`)
 			t.Errorf("%s", msg)
 		}
 	})
